@@ -50,11 +50,10 @@ def handleMemError (dest len code : Nat) : Prog Unit := do
   memsetP 0 len dest
   handlerM code
 
-/-- `_strnlen_s_chk` loop: `while (*str && smax)` — the cell is read *before* the bound is tested -/
+/-- `_strnlen_s_chk` loop: `while (smax && *str)` (after the `fix:` commit that swapped the
+operands; before it the cell was read first) -/
 def strnlenLoop : Nat → Nat → Nat → Bos → Prog Nat
-  | 0, str, count, _ => do
-    let _ ← load str
-    pure count
+  | 0, _, count, _ => pure count
   | smax+1, str, count, bos => do
     let c ← load str
     if c = 0 then pure count
@@ -79,14 +78,52 @@ def handleStrBosOverflow (cfg : Cfg) (dest dmax : Nat) : Prog Nat := do
     handleError cfg dest len EOVERFLOW
     pure EOVERFLOW
 
-/-- the `if (destbos == BOS_UNKNOWN) { CHK_DMAX_MAX } else { CHK_DEST_OVR_CLEAR }` block -/
-def chkDmaxClear (cfg : Cfg) (dest dmax : Nat) (destbos : Bos) (max : Nat) (k : Prog Nat) : Prog Nat :=
+/-- the `if (destbos == BOS_UNKNOWN) { CHK_DMAX_MAX } else { CHK_DEST_OVR_CLEAR }` block;
+`mk` turns the error code into the function's failure value -/
+def chkDmaxClearG (mk : Nat → α) (cfg : Cfg) (dest dmax : Nat) (destbos : Bos) (max : Nat) (k : Prog α) : Prog α :=
   match destbos with
-  | none => if dmax > max then failS ESLEMAX else k
+  | none => if dmax > max then do handlerS ESLEMAX; pure (mk ESLEMAX) else k
   | some bos =>
     if dmax > bos then
-      if dmax > max then do handleError cfg dest bos ESLEMAX; pure ESLEMAX
-      else handleStrBosOverflow cfg dest bos
+      if dmax > max then do handleError cfg dest bos ESLEMAX; pure (mk ESLEMAX)
+      else do
+        let c ← handleStrBosOverflow cfg dest bos
+        pure (mk c)
+    else k
+
+def chkDmaxClear (cfg : Cfg) (dest dmax : Nat) (destbos : Bos) (max : Nat) (k : Prog Nat) : Prog Nat :=
+  chkDmaxClearG id cfg dest dmax destbos max k
+
+/-- `wcsnlen_s(str, smax)` as called inside the library (object size unknown there) -/
+def wcsnlenLoop : Nat → Nat → Nat → Prog Nat
+  | 0, _, count => pure count
+  | smax+1, str, count => do
+    let c ← load str
+    if c = 0 then pure count else wcsnlenLoop smax (str+1) (count+1)
+
+def wcsnlen_s (str smax : Nat) : Prog Nat :=
+  if str = 0 then pure 0
+  else if smax = 0 then do handlerS ESZEROL; pure 0
+  else if smax > RSIZE_MAX_WSTR then do handlerS ESLEMAX; pure 0
+  else wcsnlenLoop smax str 0
+
+/-- wide: `CHK_DMAX_MAX(RSIZE_MAX_WSTR)` / `CHK_DESTW_OVR_CLEAR(destsz, destbos)`; `destbos` in bytes -/
+def chkDmaxClearW (cfg : Cfg) (dest dmax : Nat) (destbos : Bos) (k : Prog Nat) : Prog Nat :=
+  match destbos with
+  | none => if dmax > RSIZE_MAX_WSTR then failS ESLEMAX else k
+  | some bos =>
+    if dmax * SIZEOF_WCHAR_T > bos then
+      if dmax > RSIZE_MAX_WSTR then do handleError cfg dest (bos / SIZEOF_WCHAR_T) ESLEMAX; pure ESLEMAX
+      else do handleError cfg dest (bos / SIZEOF_WCHAR_T) EOVERFLOW; pure EOVERFLOW
+    else k
+
+/-- wide, non-clearing: `CHK_DESTW_OVR` -/
+def chkDmaxW (dmax : Nat) (destbos : Bos) (k : Prog Nat) : Prog Nat :=
+  match destbos with
+  | none => if dmax > RSIZE_MAX_WSTR then failS ESLEMAX else k
+  | some bos =>
+    if dmax * SIZEOF_WCHAR_T > bos then
+      if dmax > RSIZE_MAX_WSTR then failS ESLEMAX else failS EOVERFLOW
     else k
 
 /-- the non-clearing variant: `CHK_DMAX_MAX` / `CHK_DEST_OVR` -/
